@@ -258,3 +258,11 @@ RULES = [
     ("C14.d", "port clones share links (CachedRwLock protocol)", rule_d),
     ("C14.e", "ordering floors of the TaskSet", rule_e),
 ]
+
+
+def rule_inventory(ctx):
+    from . import inventory
+    inventory.check(ctx, ['task-set-take', 'file:task_set'])
+
+
+RULES.append(("C14.h", "state-mutation inventory: no new site that changes the content of the state this property rests on", rule_inventory))
